@@ -239,7 +239,10 @@ def h_valid_via(d: Decl, props, entry):
     else:
         raise ValueError(entry)
     body = (pre + get +
-            '        if let Some(v) = got { let i = v.into_inner(); assert!(ref_%s::valid(&i), "a value obtained through %s satisfies every declared validator"); }\n' % (d.id, entry))
+            '        if let Some(v) = got { let i = v.into_inner(); assert!(ref_%s::valid(&i), "a value obtained through %s satisfies every declared validator");\n' % (d.id, entry))
+    if entry != 'Arbitrary':
+        body += '            assert!(%s == %s, "the stored value went through the declared sanitizers");\n' % (bits(d, 'i'), bits(d, 'ref_%s::sanitize(raw)' % d.id))
+    body += '        }\n'
     return Harness(d, 'guards run: ' + entry, props, body, attrs=attrs,
                    clause='forall inputs: %s yields only values that satisfy every declared validator (the guards cannot be bypassed)' % entry)
 
@@ -260,6 +263,8 @@ def guard_decls(tier='quick'):
         s, n5 = aux.custom('san', t)
         out.append(mk('grd_%s_san_val' % t, fam, t, sanitizers=[Sanitizer('with', s)], validators=vals, aux=[n1, n2, n5],
                       derives=[x for x in der if x != 'Arbitrary']))
+        out.append(mk('grd_%s_san_nov' % t, fam, t, sanitizers=[Sanitizer('with', s)], aux=[n5],
+                      derives=[x for x in der if x not in ('Arbitrary',)]))
     for d in out:
         d.verus = False
         d.kani = True
